@@ -16,15 +16,25 @@ COQ_IMPORTS = ['C14_Model']
 GENERATORS = ['gen_codes', 'gen_flags', 'gen_sjson']
 STRANDS = '+-.?'
 RULE = ('object graphs built from an abstract tree: (x) the exhaustive box of all 4 strands x 256 defect sets on a two-location feature '
-        'with and without location metadata; (r) random baskets of 0-3 sequences (type nt/aa drawn independently of the residues; sequence ids and feature id/name/seqid/type entries are '
-        "JSON scalars of every type with emphasis on the falsy ones 0, None, False, 0.0, -0.0, ''; locations with tied sort keys), "
-        'metadata trees of depth <= 4 over None/bool/int (up to 2^200)/float (incl. nan, inf, -0.0)/str (quotes, backslashes, control and '
-        'Latin-1 characters)/list/plain dict/Attr/Meta, 0-3 features with 1-3 locations, keys drawn from a pool containing private keys '
-        "('_x', '_', '_fmt', '_fmtcomment', '_cls'), constructor parameter names, 'self', 'str' and the excluded F20 names; "
-        '(m) a mutation stream leaving the domain (lower-case residues, missing id, mixed strands, unsorted locations, plain dict '
-        "directly inside Attr, '_cls' inside a plain dict, bad type). Compared by value AND JSON type (0, False, 0.0, None, '' pairwise different) modulo '_'-prefixed keys and key order. "
-        'non-trivial = distinct in-domain case with at least one marker (minus/unstranded location, defect, location metadata, '
-        'several locations, nesting depth >= 2, private key dropped, Attr inside list, type differing from the inferred one)')
+        'with and without location metadata; (r) random baskets of 0-3 sequences (type nt/aa drawn independently of the residues; sequence ids and '
+        "feature id/name/seqid/type entries are JSON scalars of every type with emphasis on the falsy ones 0, None, False, 0.0, -0.0, ''; locations "
+        'with tied sort keys), metadata trees of depth <= 4 over None/bool/int (up to 2^200)/float (incl. nan, inf, -0.0)/str (quotes, backslashes, '
+        'control and non-ASCII Latin-1 characters)/list/plain dict/Attr/Meta, 0-3 features with 1-3 locations, keys drawn from a pool containing '
+        "private keys ('_x', '_', '_fmt', '_fmtcomment', '_cls'), constructor parameter names, 'self', 'str' and the excluded F20 names, each through a "
+        "random transport: write/read of a file (fmt given / from the extension, encoding default / utf-8 / latin-1 / ascii) or "
+        'tofmtstr -> fromfmtstr (with and without fmt); (m) a mutation stream leaving the domain (lower-case residues, missing id, mixed strands, '
+        "unsorted locations, plain dict directly inside Attr, '_cls' inside a plain dict, bad type); (h) HISTORIES on one object: repeated writes "
+        'through different transports in both orders, a fresh object vs the same object, in-place edits through the public API (residues, sequence/'
+        'basket/feature/location metadata, strand, defect, order, append/pop) followed by a re-write, edits of a read-back RESULT followed by a '
+        're-read of the same text and a re-write of the operand, baskets holding the same BioSeq twice or two sequences sharing one Feature object, '
+        'and a switch to a different basket with equal ids/lengths/shape (cache-key collisions) -- every step compared with the pure model applied '
+        'to the graph current at that step; (j) hand-written SJSON: JSON trees derived from real output by dropping optional entries, locations as '
+        'lists, Feature(start=, stop=, strand=), shuffled locations, id/type keywords, nested BioSeq/FeatureList/BioBasket as data, untagged or '
+        "mis-tagged objects, unknown keywords, invalid coordinates/strands, empty or mixed-strand location lists, read through read_sjson and through "
+        "sugar.read, results AND exception classes compared. Compared by value AND JSON type (0, False, 0.0, None, '' pairwise different) modulo "
+        "'_'-prefixed keys and key order. non-trivial = distinct in-domain case with at least one marker (minus/unstranded location, defect, location "
+        'metadata, several locations, nesting depth >= 2, private key dropped, Attr inside list, type differing from the inferred one; any history; '
+        'any hand-written tree by result class)')
 TRUSTED = ['CPython json text layer: json.dump calls default() exactly on non-native objects (Strand=StrEnum and Defect=IntFlag are written '
            'natively as string and number, LocationTuple as an array), json.load applies object_hook bottom-up, text/escapes/number '
            'printing and float repr round-trip (floats are opaque tokens in the model, compared by repr)',
@@ -33,28 +43,49 @@ TRUSTED = ['CPython json text layer: json.dump calls default() exactly on non-na
            'Attr.__init__/__setitem__/update (meta.py:31-74), Location.__init__ and property setters (fts.py:84-149), LocationTuple.__new__ '
            '(fts.py:152-180), Feature.__init__ (fts.py:281-287), FeatureList.__init__ (fts.py:411-420), BioSeq.__init__ (seq.py:213-235), '
            'BioBasket.__init__ (seq.py:647-661); read glue seqs=BioBasket(seqs); seq.meta._fmt=fmt (_io/main.py:327-330)',
-           'file transport, format detection and archive handling of write()/read() (exercised by every case, not modelled; C03)']
+           'file transports, encodings and archive handling of write()/read()/tofmtstr()/fromfmtstr() (exercised by every case through 7 transports, '
+           'not modelled; C03); the head of the written text (brace, quoted key, separator, value) is modelled as text_head and checked on every case']
 ASSUMPTIONS = ['Python str restricted to Latin-1 code points; dict keys are str',
                'object graphs reachable through the constructors: residues upper-case ASCII (BioSeq.__init__ upper-cases; seq.str.lower() '
                'leaves this domain and is NOT preserved), meta.id present, type in {nt, aa}, one strand per feature with locations in '
                "5'->3' order (LocationTuple invariant), mappings directly inside Attr are Attr, defect sets 0..255",
                "open finding F20: keys naming a public attribute of Attr/Meta (items, keys, ..., tostr) are outside the domain",
                "plain dicts nested in lists must not contain the format's own tag key '_cls' (reading such a file raises KeyError or builds an object)"]
-LEVEL_TEXT = ('Machine-checked Coq theorem over all object graphs of the domain predicate wf (arbitrary nesting, any number of sequences, '
+LEVEL_TEXT = ('Machine-checked Coq theorems over all object graphs of the domain predicate wf (arbitrary nesting, any number of sequences, '
               'features and locations): reading what the SJSON writer produced returns exactly the input with, in every Attr/Meta mapping, '
-              "only the keys rejected by the encoder's filter removed -- every one of them starts with '_' (proved; no exception) -- so residues, sequence type, "
-              'every key/value/class (Attr vs Meta vs dict vs list) of nested metadata, feature metadata and each location\'s start, stop, strand, '
-              'defect and metadata are preserved; the public part pub(read(write b)) = pub(b); class tags are injective and dispatch back to '
-              'their class; a second round trip is the identity. The hand-written model of encoder, hook and the constructors the hook runs '
-              'is tied to sugar by differential testing through the real write()/read() incl. the JSON text layer on every run '
-              '(exhaustive strand x defect box + random graphs), and its constants (class tuple, vars() of each class, constructor signatures) '
-              'are regenerated from /repo and pinned.')
+              "only the keys rejected by the encoder's filter removed -- every one of them starts with '_' (proved; no exception) -- so residues, "
+              'sequence type, every key/value/class (Attr vs Meta vs dict vs list) of nested metadata, feature metadata and each location\'s start, '
+              'stop, strand, defect and metadata are preserved (also stated on a flat view: C14_view_preserved); the public part '
+              'pub(read(write b)) = pub(b); class tags are injective and dispatch back to their class; a second round trip is the identity; the '
+              'written top-level object starts with the comment entry and the sniffer is_sjson accepts the head of the written text; on ARBITRARY '
+              "JSON trees the hook is total: without '_cls' keys it returns the plain data, and in general it succeeds or raises one of TypeError/"
+              'ValueError/KeyError/AssertionError (+AttributeError from sugar.read). The hand-written model of encoder, hook and the constructors '
+              'the hook runs (including their hand-written-file paths: defaults, locations as lists, start/stop keywords, sorting, type inference, id '
+              'keyword, nested containers) is tied to sugar by differential testing through the real write()/read()/tofmtstr()/fromfmtstr() incl. the '
+              'JSON text layer on every run (exhaustive strand x defect box, random graphs through 7 transports, state histories on shared and '
+              'edited objects, hand-written trees with exception classes), and its constants (class tuple, vars() of each class, constructor '
+              'signatures, sniffer constants, module globals) are regenerated from /repo and pinned.')
 LEVEL_NOTE = ('Trusted: Coq kernel/vm_compute, tools/gen_data.py + tools/gens/c14.py (constants), the correspondence harness, CPython json/kwargs/enum. '
-              'Modelled rather than verified: sjson.py and the constructors listed in trusted_base. Domain restrictions (see assumptions): F20 key names; '
-              "'_cls' inside plain dicts; lower-case residues. The finding reserved_meta_keys (metadata keys 'self'/'str') is fixed in /repo (056e094): "
-              "both keys are inside the domain (witness C14_str_self_keys_kept, corpus/C14/pending_reserved_meta_keys.json). All theorems closed under the global context.")
+              'Modelled rather than verified: sjson.py and the constructors listed in trusted_base. Tested only (not proved): the JSON text layer and '
+              'the transports/encodings (strings beyond Latin-1 incl. astral characters and lone surrogates are exercised through every transport by a '
+              'relational check without the model), float repr round trip, state independence (histories). Domain restrictions (see assumptions): '
+              "F20 key names; '_cls' inside plain dicts; lower-case residues. Fixed findings: F21, reserved_meta_keys (056e094). PENDING FIX "
+              "failed_write_state (outside the quantifier, recorded in the evidence as pending_failed_write_state): after a write that failed because "
+              "the metadata was not JSON-representable, '_fmtcomment' stays in the basket's __dict__ and every later SJSON write raises TypeError. "
+              'Statement coverage of the modelled functions (anchored_source_statement_coverage): everything reachable is executed in the quick tier; '
+              'genuinely unreachable: sjson.py:28,30 (Strand/Defect branch of _SJSONEncoder.default -- json writes str/int subclasses natively, so '
+              'default() never sees them) and sjson.py:56 (isinstance(cls, (Strand, Defect)) on a class object is always False); `def` lines run at '
+              'import time before the measurement starts; seq.py:219 and 653 (data that is a mapping/list containing the word meta) are executed by '
+              'out-of-domain cases but not modelled. All theorems closed under the global context.')
 TECHNIQUE = 'Coq proof (nested structural induction over the object universe, list lemmas) + pinned regenerated constants + differential correspondence'
 
+MODELLED_FUNCS = {
+    'sugar/_io/sjson.py': ['_SJSONEncoder.default', '_json_hook', 'is_sjson', 'read_sjson', 'write_sjson'],
+    'sugar/core/meta.py': ['Attr.__init__', 'Attr.__setitem__', 'Attr.update'],
+    'sugar/core/fts.py': ['Location.__init__', 'Location.meta', 'Location.strand', 'Location.defect', 'LocationTuple.__new__',
+                          'Feature.__init__', 'FeatureList.__init__'],
+    'sugar/core/seq.py': ['BioSeq.__init__', 'BioBasket.__init__'],
+}
 RESERVED = ['clear', 'copy', 'get', 'items', 'keys', 'pop', 'popitem', 'setdefault', 'tostr', 'update', 'values']
 
 
@@ -136,13 +167,22 @@ def check_shape(v, want=None):
 
 def model_term(case):
     try:
+        if case.get('kind') == 'hist':
+            return history_term(case)
+        if case.get('kind') == 'json':
+            check_jshape(case['j'])
+            assert isinstance(case.get('read', False), bool)
+            return 'out (run_C14_json %s %s)' % ('true' if case.get('read') else 'false', jterm(case['j']))
         check_shape(case['b'], 'BioBasket')
+        assert case.get('via', 'file') in VIAS
         return 'out (run_C14 %s)' % term(case['b'])
     except Exception:                       # malformed candidate produced by the generic shrinker
         return 'out (VL [VB false; VE (bs "Malformed"%bs)])'
 
 
 def split_model(case, m):
+    if case.get('kind') == 'hist' and not isinstance(m[0], bool):
+        return all(bool(e[0]) for e in m), [e[1] for e in m]
     return bool(m[0]), m[1]
 
 
@@ -251,32 +291,81 @@ def canon(v):
     return v
 
 
-def roundtrip(b):
+VIAS = ['file', 'str', 'latin1', 'ascii', 'utf8', 'strfmt', 'ext']
+_ENC = {'latin1': 'latin-1', 'ascii': 'ascii', 'utf8': 'utf-8'}
+
+
+def write_text(b, via='file'):
+    """SJSON text (str or bytes as the transport carries it) written through the public entry point of the transport"""
+    if via in ('str', 'strfmt'):
+        return b.tofmtstr('sjson')
     fd, fn = tempfile.mkstemp(prefix='C14-', suffix='.sjson', dir='/tmp')
     os.close(fd)
     try:
-        from sugar import read
-        b.write(fn, fmt='sjson')
-        return read(fn)
+        if via == 'file':
+            b.write(fn, fmt='sjson')
+        elif via == 'ext':
+            b.write(fn)                                   # format from the file extension
+        else:
+            b.write(fn, fmt='sjson', encoding=_ENC[via])
+        with open(fn, 'rb') as f:
+            return f.read()
     finally:
         os.remove(fn)
 
 
+def read_text(text, via='file'):
+    from sugar import read, BioBasket
+    if via == 'str':
+        return BioBasket.fromfmtstr(text)
+    if via == 'strfmt':
+        return BioBasket.fromfmtstr(text, fmt='sjson')
+    fd, fn = tempfile.mkstemp(prefix='C14-', suffix='.sjson', dir='/tmp')
+    os.close(fd)
+    try:
+        with open(fn, 'wb') as f:
+            f.write(text)
+        if via in _ENC:
+            return read(fn, encoding=_ENC[via])
+        return read(fn)                                   # format auto-detected from the content
+    finally:
+        os.remove(fn)
+
+
+def roundtrip(b, via='file'):
+    text = write_text(b, via)
+    from sugar._io.sjson import COMMENT
+    head = '{"_fmtcomment": "' + COMMENT
+    got = text if isinstance(text, str) else text.decode('latin-1')
+    assert got.startswith(head), 'written text does not start with the comment entry (text_head of the model): %r' % got[:70]
+    return read_text(text, via)
+
+
 def impl(case):
+    if case.get('kind') == 'hist':
+        return impl_history(case)
+    if case.get('kind') == 'json':
+        return impl_json(case)
     g = case['b']
     check_shape(g, 'BioBasket')
+    assert case.get('via', 'file') in VIAS
     b = build(g)
     if _diff(snap(b), expected_snapshot(g)) is not None:
         b = build(g, assign=True)            # BioSeq.__init__ normalised something: set the public attributes instead
     d = _diff(snap(b), expected_snapshot(g))
     if d is not None:
         raise ConstructedGraphDiffers(d)
-    b2 = roundtrip(b)
+    b2 = roundtrip(b, case.get('via', 'file'))
     assert _diff(snap(b), expected_snapshot(g)) is None, 'writing changed the object that was written'
     return snap(b2)
 
 
 def agree(case, implval, modelval):
+    if case.get('kind') == 'hist' and isinstance(modelval, list) and not (modelval and isinstance(modelval[0], str)):
+        if isinstance(implval, dict):
+            return any(isinstance(e, dict) for e in modelval)
+        return (len(implval) == len(modelval) and
+                all(not isinstance(m, dict) and _diff(canon(i), canon(m)) is None for i, m in zip(implval, modelval)))
     if isinstance(implval, dict) or isinstance(modelval, dict):
         return isinstance(implval, dict) and isinstance(modelval, dict)      # raises / does not raise
     return _diff(canon(implval), canon(modelval)) is None                  # value AND JSON type (0 is not False)
@@ -298,8 +387,23 @@ def _diff(a, b, path=''):
 
 def spec(case, got):
     """Property-level oracle: what was read equals what was written, modulo '_'-prefixed keys."""
+    if case.get('kind') == 'json':
+        # no write side: the oracle is only "never raises outside the documented exception classes"
+        if isinstance(got, dict) and got['e'] not in DOCUMENTED_ERRORS:
+            return 'reading hand-written SJSON raised the undocumented %s' % got['e']
+        return None
     if isinstance(got, dict):
         return 'raised %s' % got['e']
+    if case.get('kind') == 'hist':
+        exps = history_expected(case)
+        if len(exps) != len(got):
+            return 'history produced %d values for %d steps' % (len(got), len(exps))
+        for n, ((exact, exp), val) in enumerate(zip(exps, got)):
+            d = _diff(exp, val) if exact else _diff(canon(exp), canon(val))
+            if d:
+                st = case['steps'][n]
+                return 'step %d (%s): %s %s' % (n, st['op'], 'object after the edit is not the edited graph' if exact else 'expected vs read back', d[:260])
+        return None
     exp = canon(expected_snapshot(case['b']))
     d = _diff(exp, canon(got))
     return ('written vs read back ' + d[:300]) if d else None
@@ -339,6 +443,10 @@ def _nodes(v):
 def nontrivial(case, got):
     if isinstance(got, dict):
         return None
+    if case.get('kind') == 'json':
+        return ['json', got['e'] if isinstance(got, dict) else str(got[0]) if isinstance(got, list) and got else 'scalar', bool(case.get('read'))]
+    if case.get('kind') == 'hist':
+        return ['hist', str(case.get('share'))] + sorted(set(st['op'] + ':' + (st.get('ed') or [st.get('via', '')])[0] for st in case['steps']))
     marks = set()
     for t, x, depth, inlist in _nodes(case['b']):
         if t == 'Location':
@@ -365,6 +473,12 @@ def nontrivial(case, got):
 
 
 def histkey(case, got):
+    if case.get('kind') == 'json':
+        return ['kind=json', 'jsonread=%s' % bool(case.get('read')), 'jsonresult=' + (got['e'] if isinstance(got, dict) else 'ok')]
+    if case.get('kind') == 'hist':
+        return (['kind=hist', 'share=%s' % case.get('share'), 'result=' + (got['e'] if isinstance(got, dict) else 'ok'), 'steps=%d' % len(case['steps'])] +
+                ['step=' + st['op'] + (':' + st['ed'][0] if 'ed' in st else '') for st in case['steps']] +
+                ['via=' + st['via'] for st in case['steps'] if 'via' in st])
     g = case['b']
     ns = _nodes(g)
     nl = sum(1 for n in ns if n[0] == 'Location')
@@ -372,7 +486,7 @@ def histkey(case, got):
     out = ['seqs=%d' % len(g[1]) if g[0] == 'BioBasket' else 'top=' + str(g[0]),
            'fts=' + ('0' if nf == 0 else '1' if nf == 1 else '2+'), 'locs=' + ('0' if nl == 0 else '1' if nl == 1 else '2-3' if nl <= 3 else '4+'),
            'depth=%d' % min(9, max([n[2] for n in ns] + [0])),
-           'result=' + (got['e'] if isinstance(got, dict) else 'ok'), 'kind=' + case.get('kind', '?')]
+           'result=' + (got['e'] if isinstance(got, dict) else 'ok'), 'kind=' + case.get('kind', '?'), 'via=' + case.get('via', 'file')]
     for s in sorted(set(n[1][3] for n in ns if n[0] == 'Location')):
         out.append('strand=' + str(s))
     return out
@@ -380,13 +494,18 @@ def histkey(case, got):
 
 def python_snippet(case):
     try:
-        expr = src(case['b'])
+        if case.get('kind') == 'json':
+            py = to_py(case['j'])
+            if case.get('read'):
+                return ('import json, tempfile, os\nfrom sugar import read\nfrom sugar._io.sjson import COMMENT\npy = %r\n'
+                        'fn = os.path.join(tempfile.mkdtemp(), "x.sjson")\nopen(fn, "w").write(json.dumps(dict(_fmtcomment=COMMENT, **py)))\n'
+                        'r = read(fn)\nprint(repr(r), [vars(s.meta) for s in r])\n' % (py,))
+            return ('import io, json\nfrom sugar._io.sjson import read_sjson\npy = %r\nprint(repr(read_sjson(io.StringIO(json.dumps(py)))))\n' % (py,)).replace('nan', 'float("nan")').replace('inf', 'float("inf")')
+        if case.get('kind') == 'hist':
+            return history_snippet(case)
+        return history_snippet({'b': case['b'], 'share': None, 'steps': [{'op': 'w', 'via': case.get('via', 'file')}]})
     except Exception:
         return 'malformed case'
-    return (PRELUDE + 'import tempfile, os\nb = %s\nfn = os.path.join(tempfile.mkdtemp(), "x.sjson")\nb.write(fn, fmt="sjson")\n'
-            'print(open(fn).read())\nb2 = read(fn)\nprint(repr(b2), b2.meta)\n'
-            'for s in b2:\n    print(vars(s.meta))\n    for ft in s.fts:\n        print(ft.meta, [(l.start, l.stop, l.strand, l.defect, l.meta) for l in ft.locs])\n'
-            % expr)
 
 
 # ----------------------------------------------------------------------------- generators
@@ -554,11 +673,684 @@ def gen_cases(rng, tier):
     nrand, nmut = (700, 250) if tier != 'thorough' else (12000, 3000)
     for i in range(nrand):
         depth = rng.choice([1, 2, 3, 3, 4])
-        cases.append({'kind': 'rand', 'b': g_basket(rng, {}, depth)})
+        cases.append({'kind': 'rand', 'via': rng.choice(VIAS), 'b': g_basket(rng, {}, depth)})
     for i in range(nmut):
         opts = {rng.choice(['badkey', 'lower', 'noid', 'mixed', 'unsorted', 'dict_in_attr', 'cls_in_dict', 'badtype']): rng.choice([0.15, 0.5])}
-        cases.append({'kind': 'mut', 'b': g_basket(rng, opts, rng.choice([2, 3]))})
+        cases.append({'kind': 'mut', 'via': rng.choice(VIAS), 'b': g_basket(rng, opts, rng.choice([2, 3]))})
+    for i in range(300 if tier != 'thorough' else 1500):
+        cases.append(g_history(rng))
+    for i in range(500 if tier != 'thorough' else 3000):
+        cases.append(g_json_case(rng))
     return cases
+
+
+# ----------------------------------------------------------------------------- histories (state-independence stream)
+# A history case is {'kind': 'hist', 'b': g0, 'share': None|'seq_twice'|'ft_shared', 'steps': [step...]}; steps are dicts:
+#   {'op': 'w', 'via': v}            write the CURRENT object through transport v, read it back          -> model on current graph
+#   {'op': 'fresh', 'via': v}        the same with a freshly built object                                 -> model on current graph
+#   {'op': 'e', 'ed': edit}          in-place edit of the object through the public API                   -> echo of the edited graph
+#   {'op': 'm', 'r': k, 'ed': edit}  in-place edit of the RESULT of the k-th write (operand must be unaffected) -> model on that
+#                                    write's graph with the same edit
+#   {'op': 'rr', 'r': k}             read the text produced by the k-th write again                       -> model on that write's graph
+#   {'op': 'new', 'b': g}            switch to a different basket (same ids/lengths: cache-key collisions) -> echo
+# The Gallina model is pure: the expected value of a step is the model applied to the graph current at that step.
+import copy as _copy
+
+EDITS = ('data', 'meta', 'delmeta', 'bmeta', 'ftmeta', 'strand', 'defect', 'locmeta', 'reverse', 'pop', 'append')
+
+
+def _seq(g, i):
+    return g[1][i]
+
+
+def _pairs_get(node, key):
+    for p in node[1:]:
+        if p[0] == key:
+            return p[1]
+    raise KeyError(key)
+
+
+def _pairs_set(node, key, val):
+    for p in node[1:]:
+        if p[0] == key:
+            p[1] = val
+            return
+    node.append([key, val])
+
+
+def _ft(g, i, j):
+    fl = _pairs_get(_seq(g, i)[3], 'fts')
+    assert fl[0] == 'FeatureList'
+    return fl[1:][j]
+
+
+def _aliases(g, share, i):
+    if share == 'seq_twice' and i in (0, len(g[1]) - 1):
+        return sorted({0, len(g[1]) - 1})
+    return [i]
+
+
+def _ft_aliases(g, share, i, j):
+    if share == 'seq_twice':
+        return [(a, j) for a in _aliases(g, share, i)]
+    if share == 'ft_shared' and (i, j) in ((0, 0), (1, 0)):
+        return [(0, 0), (1, 0)]
+    return [(i, j)]
+
+
+def apply_edit(g, ed, share=None):
+    """the edit on the abstract graph (returns a new graph); aliasing of shared parts is applied here"""
+    g = _copy.deepcopy(g)
+    op = ed[0]
+    assert op in EDITS
+    if op == 'data':
+        _, i, s = ed
+        assert isinstance(s, str)
+        for a in _aliases(g, share, i):
+            _seq(g, a)[1] = s
+    elif op == 'meta':
+        _, i, k, v = ed
+        check_shape(v)
+        assert isinstance(k, str)
+        for a in _aliases(g, share, i):
+            _pairs_set(_seq(g, a)[3], k, _copy.deepcopy(v))
+    elif op == 'delmeta':
+        _, i, k = ed
+        for a in _aliases(g, share, i):
+            m = _seq(g, a)[3]
+            assert any(p[0] == k for p in m[1:])
+            m[1:] = [p for p in m[1:] if p[0] != k]
+    elif op == 'bmeta':
+        _, k, v = ed
+        check_shape(v)
+        assert isinstance(k, str)
+        _pairs_set(g[2], k, v)
+    elif op == 'ftmeta':
+        _, i, j, k, v = ed
+        check_shape(v)
+        assert isinstance(k, str)
+        for a, b in _ft_aliases(g, share, i, j):
+            _pairs_set(_ft(g, a, b)[1], k, _copy.deepcopy(v))
+    elif op == 'strand':
+        _, i, j, st = ed
+        assert isinstance(st, str)
+        for a, b in _ft_aliases(g, share, i, j):
+            for loc in _ft(g, a, b)[2]:
+                loc[3] = st
+    elif op == 'defect':
+        _, i, j, k, d = ed
+        assert type(d) is int
+        for a, b in _ft_aliases(g, share, i, j):
+            _ft(g, a, b)[2][k][4] = d
+    elif op == 'locmeta':
+        _, i, j, k, key, v = ed
+        check_shape(v)
+        assert isinstance(key, str)
+        for a, b in _ft_aliases(g, share, i, j):
+            loc = _ft(g, a, b)[2][k]
+            if loc[5] is None:
+                loc[5] = ['Meta']
+            _pairs_set(loc[5], key, _copy.deepcopy(v))
+    elif op == 'reverse':
+        assert share is None
+        g[1].reverse()
+    elif op == 'pop':
+        assert share is None
+        g[1].pop(ed[1])
+    elif op == 'append':
+        assert share is None
+        check_shape(ed[1], 'BioSeq')
+        g[1].append(ed[1])
+    return g
+
+
+def edit_stmt(var, ed):
+    """python statement performing the edit on the real object `var` through the public API"""
+    op = ed[0]
+    if op == 'data':
+        return '%s[%d].data = %r' % (var, ed[1], ed[2])
+    if op == 'meta':
+        return '%s[%d].meta[%r] = %s' % (var, ed[1], ed[2], src(ed[3]))
+    if op == 'delmeta':
+        return 'del %s[%d].meta[%r]' % (var, ed[1], ed[2])
+    if op == 'bmeta':
+        return '%s.meta[%r] = %s' % (var, ed[1], src(ed[2]))
+    if op == 'ftmeta':
+        return '%s[%d].meta["fts"][%d].meta[%r] = %s' % (var, ed[1], ed[2], ed[3], src(ed[4]))
+    if op == 'strand':
+        return 'for _l in %s[%d].meta["fts"][%d].locs: _l.strand = %r' % (var, ed[1], ed[2], ed[3])
+    if op == 'defect':
+        return '%s[%d].meta["fts"][%d].locs[%d].defect = %r' % (var, ed[1], ed[2], ed[3], ed[4])
+    if op == 'locmeta':
+        return '%s[%d].meta["fts"][%d].locs[%d].meta[%r] = %s' % (var, ed[1], ed[2], ed[3], ed[4], src(ed[5]))
+    if op == 'reverse':
+        return '%s.data.reverse()' % var               # list order (BioBasket.reverse() is the sequence operation)
+    if op == 'pop':
+        return '%s.pop(%d)' % (var, ed[1])
+    if op == 'append':
+        return '%s.append(%s)' % (var, src(ed[1]))
+    raise ValueError(op)
+
+
+def share_stmt(var, share):
+    if share == 'seq_twice':
+        return '%s.data[-1] = %s.data[0]' % (var, var)
+    if share == 'ft_shared':
+        return '%s[1].meta["fts"].data[0] = %s[0].meta["fts"].data[0]' % (var, var)
+    return 'pass'
+
+
+def check_share(g, share):
+    assert share in (None, 'seq_twice', 'ft_shared')
+    if share == 'seq_twice':
+        assert len(g[1]) >= 2 and g[1][0] == g[1][-1]
+    if share == 'ft_shared':
+        assert len(g[1]) >= 2 and _ft(g, 0, 0) == _ft(g, 1, 0)
+
+
+def trace(case):
+    """abstract interpretation of a history: list of (what, graph) per step; what in {'run', 'echo'}"""
+    g = case['b']
+    share = case.get('share')
+    check_shape(g, 'BioBasket')
+    check_share(g, share)
+    out, gw, gr = [], [], []
+    steps = case['steps']
+    assert isinstance(steps, list) and steps and len(steps) <= 12
+    for st in steps:
+        op = st['op']
+        if op in ('w', 'fresh'):
+            assert st['via'] in VIAS
+            if op == 'w':
+                gw.append(g)
+                gr.append(g)
+            out.append(('run', g))
+        elif op == 'e':
+            g = apply_edit(g, st['ed'], share)
+            out.append(('echo', g))
+        elif op == 'm':
+            r = st['r']
+            assert type(r) is int and 0 <= r < len(gr)
+            gr[r] = apply_edit(gr[r], st['ed'], None)           # what was read back shares nothing
+            out.append(('run', gr[r]))
+        elif op == 'rr':
+            r = st['r']
+            assert type(r) is int and 0 <= r < len(gw)
+            out.append(('run', gw[r]))
+        elif op == 'new':
+            assert share is None
+            g = st['b']
+            check_shape(g, 'BioBasket')
+            out.append(('echo', g))
+        else:
+            raise AssertionError('bad step %r' % (op,))
+    return out
+
+
+def _mk(g, share, env):
+    o = build(g)
+    if _diff(snap(o), expected_snapshot(g)) is not None:
+        o = build(g, assign=True)                 # BioSeq.__init__ normalised something: set the public attributes instead
+    env['_o'] = o
+    exec(share_stmt('_o', share), env)
+    d = _diff(snap(o), expected_snapshot(g))
+    if d is not None:
+        raise ConstructedGraphDiffers(d)
+    return o
+
+
+def impl_history(case):
+    trace(case)                                                 # validates the case
+    env = {}
+    exec(PRELUDE, env)
+    share = case.get('share')
+    g = case['b']
+    env['b'] = _mk(g, share, env)
+    out, txt, res = [], [], []
+    env['RES'] = res
+    for st in case['steps']:
+        op = st['op']
+        if op == 'w':
+            t = write_text(env['b'], st['via'])
+            txt.append((t, st['via']))
+            res.append(read_text(t, st['via']))
+            out.append(snap(res[-1]))
+        elif op == 'fresh':
+            out.append(snap(roundtrip(_mk(g, share, env), st['via'])))
+        elif op == 'e':
+            exec(edit_stmt('b', st['ed']), env)
+            g = apply_edit(g, st['ed'], share)
+            out.append(snap(env['b']))
+        elif op == 'm':
+            exec(edit_stmt('RES[%d]' % st['r'], st['ed']), env)
+            out.append(snap(res[st['r']]))
+        elif op == 'rr':
+            out.append(snap(read_text(*txt[st['r']])))
+        elif op == 'new':
+            g = st['b']
+            env['b'] = _mk(g, share, env)
+            out.append(snap(env['b']))
+    return out
+
+
+def history_snippet(case):
+    import inspect
+    lines = [PRELUDE, 'import os, tempfile', 'VIAS = %r' % (VIAS,), '_ENC = %r' % (_ENC,), inspect.getsource(write_text), inspect.getsource(read_text),
+             'def show(x):\n    print(repr(x), dict(x.meta))\n    for s in x:\n        print("  ", repr(s.data), s.type, dict(s.meta))\n'
+             '        for ft in s.meta.get("fts", []):\n            print("     ", dict(ft.meta), [(l.start, l.stop, str(l.strand), int(l.defect), dict(l.meta)) for l in ft.locs])\n',
+             'b = %s' % src(case['b']), share_stmt('b', case.get('share')), 'TXT, RES = [], []']
+    g = case['b']
+    for n, st in enumerate(case['steps']):
+        op = st['op']
+        lines.append('print("--- step %d: %s")' % (n, json.dumps({k: v for k, v in st.items() if k != 'b'})[:120].replace('"', "'")))
+        if op == 'w':
+            lines += ['TXT.append((write_text(b, %r), %r))' % (st['via'], st['via']), 'RES.append(read_text(*TXT[-1]))', 'show(RES[-1])']
+        elif op == 'fresh':
+            lines += ['_f = %s' % src(g), share_stmt('_f', case.get('share')), 'show(read_text(write_text(_f, %r), %r))' % (st['via'], st['via'])]
+        elif op == 'e':
+            lines += [edit_stmt('b', st['ed']), 'show(b)']
+            g = apply_edit(g, st['ed'], case.get('share'))
+        elif op == 'm':
+            lines += [edit_stmt('RES[%d]' % st['r'], st['ed']), 'show(RES[%d])' % st['r']]
+        elif op == 'rr':
+            lines += ['show(read_text(*TXT[%d]))' % st['r']]
+        elif op == 'new':
+            g = st['b']
+            lines += ['b = %s' % src(g), 'show(b)']
+    return '\n'.join(lines) + '\n'
+
+
+def history_term(case):
+    parts = []
+    for what, g in trace(case):
+        parts.append('run_C14 %s' % term(g) if what == 'run' else 'VL [VB (wf_C14 %s); show_obj %s]' % (term(g), term(g)))
+    return 'out (VL [%s])' % '; '.join(parts)
+
+
+def history_expected(case):
+    """per step: (exact?, expected snapshot)"""
+    return [(what == 'echo', expected_snapshot(g)) for what, g in trace(case)]
+
+
+# ---- history generator
+def _feature_slots(g):
+    out = []
+    for i, sq in enumerate(g[1]):
+        for p in sq[3][1:]:
+            if p[0] == 'fts' and isinstance(p[1], list) and p[1] and p[1][0] == 'FeatureList':
+                for j, ft in enumerate(p[1][1:]):
+                    if isinstance(ft, list) and ft and ft[0] == 'Feature':
+                        out.append((i, j, ft))
+    return out
+
+
+def g_edit(rng, g, share, on_result=False):
+    """a random edit valid for graph g that keeps it inside the domain"""
+    nseq = len(g[1])
+    fts = _feature_slots(g)
+    choices = ['bmeta']
+    if nseq:
+        choices += ['data', 'meta', 'meta', 'delmeta']
+    if fts:
+        choices += ['ftmeta', 'strand', 'defect', 'defect', 'locmeta']
+    if share is None and not on_result:
+        choices += ['reverse', 'append'] + (['pop'] if nseq else [])
+    op = rng.choice(choices)
+    val = lambda: g_val(rng, 2, True, {}) if rng.random() < 0.5 else g_scalar(rng)
+    key = lambda: rng.choice(['a', 'note', 'x1', 'id2', 'score', 'str', 'self', '_x', 'K\xfc'])
+    if op == 'bmeta':
+        return ['bmeta', key(), val()]
+    if op == 'data':
+        i = rng.randrange(nseq)
+        n = len(g[1][i][1])
+        return ['data', i, ''.join(rng.choice('ACGTN-*K') for _ in range(n if rng.random() < 0.7 else n + 1))]
+    if op == 'meta':
+        i = rng.randrange(nseq)
+        k = rng.choice([p[0] for p in g[1][i][3][1:] if p[0] != 'fts'] + [key(), key()])
+        if k == 'id':
+            return ['meta', i, 'id', g_scalar(rng)]
+        return ['meta', i, k, val()]
+    if op == 'delmeta':
+        i = rng.randrange(nseq)
+        ks = [p[0] for p in g[1][i][3][1:] if p[0] not in ('id', 'fts') and not (on_result and p[0].startswith('_'))]
+        if not ks:
+            return ['bmeta', key(), val()]
+        return ['delmeta', i, rng.choice(ks)]
+    if op in ('ftmeta', 'strand', 'defect', 'locmeta'):
+        i, j, ft = rng.choice(fts)
+        if op == 'ftmeta':
+            return ['ftmeta', i, j, rng.choice(['type', 'name', 'id', 'seqid', 'note', 'str']), g_scalar(rng) if rng.random() < 0.6 else val()]
+        k = rng.randrange(len(ft[2]))
+        if op == 'defect':
+            return ['defect', i, j, k, rng.randrange(256)]
+        if op == 'locmeta':
+            return ['locmeta', i, j, k, key(), val()]
+        cur = ft[2][0][3]
+        if len(ft[2]) == 1:
+            return ['strand', i, j, rng.choice(STRANDS)]
+        if cur == '-':
+            return ['defect', i, j, k, rng.randrange(256)]       # the order of a multi-location tuple depends on the strand
+        return ['strand', i, j, rng.choice('+.?')]
+    if op == 'reverse':
+        return ['reverse']
+    if op == 'pop':
+        return ['pop', rng.randrange(nseq)]
+    return ['append', g_seq(rng, {}, 2)]
+
+
+def g_collide(rng, g):
+    """a different basket with the same ids, lengths and shape (collides on every plausible cache key)"""
+    g = _copy.deepcopy(g)
+    for i, sq in enumerate(g[1]):
+        if sq[1] and rng.random() < 0.7:
+            sq[1] = ''.join(rng.choice('ACGT') for _ in sq[1])
+        if rng.random() < 0.5:
+            _pairs_set(sq[3], rng.choice(['note', 'a', 'score']), g_scalar(rng))
+    for i, j, ft in _feature_slots(g):
+        for loc in ft[2]:
+            loc[4] = rng.randrange(256)
+        if len(ft[2]) == 1:
+            ft[2][0][3] = rng.choice(STRANDS)
+    _pairs_set(g[2], 'run', rng.randrange(100))
+    return g
+
+
+def g_history(rng):
+    share = rng.choice([None, None, None, 'seq_twice', 'ft_shared'])
+    g = g_basket(rng, {}, rng.choice([1, 2, 2, 3]))
+    if share == 'seq_twice':
+        if not g[1]:
+            g[1].append(g_seq(rng, {}, 2))
+        g[1].append(_copy.deepcopy(g[1][0]))
+    elif share == 'ft_shared':
+        while len(g[1]) < 2:
+            g[1].append(g_seq(rng, {}, 2))
+        ft = g_feat(rng, {}, 2)
+        for sq in g[1][:2]:
+            sq[3][1:] = [p for p in sq[3][1:] if p[0] != 'fts'] + [['fts', ['FeatureList', _copy.deepcopy(ft)] + [g_feat(rng, {}, 1) for _ in range(rng.choice([0, 1]))]]]
+    case = {'kind': 'hist', 'share': share, 'b': g, 'steps': []}
+    steps = case['steps']
+    cur, gr, nw = g, [], 0
+    steps.append({'op': 'w', 'via': rng.choice(VIAS)})
+    gr.append(cur)
+    nw = 1
+    for _ in range(rng.randint(2, 7)):
+        r = rng.random()
+        if r < 0.3:
+            steps.append({'op': 'w', 'via': rng.choice(VIAS)})
+            gr.append(cur)
+            nw += 1
+        elif r < 0.55:
+            ed = g_edit(rng, cur, share)
+            cur = apply_edit(cur, ed, share)
+            steps.append({'op': 'e', 'ed': ed})
+        elif r < 0.72:
+            k = rng.randrange(nw)
+            ed = g_edit(rng, gr[k], None, on_result=True)
+            gr[k] = apply_edit(gr[k], ed, None)
+            steps.append({'op': 'm', 'r': k, 'ed': ed})
+        elif r < 0.84:
+            steps.append({'op': 'rr', 'r': rng.randrange(nw)})
+        elif r < 0.92:
+            steps.append({'op': 'fresh', 'via': rng.choice(VIAS)})
+        elif share is None:
+            cur = g_collide(rng, cur)
+            steps.append({'op': 'new', 'b': cur})
+    if steps[-1]['op'] in ('e', 'm', 'new'):
+        steps.append({'op': 'w', 'via': rng.choice(VIAS)})
+    return case
+
+
+# ----------------------------------------------------------------------------- hand-written SJSON (kind 'json')
+# {'kind': 'json', 'read': bool, 'j': jt}; jt = None | bool | int | str | ['f', repr] | ['a', v...] | ['o', [k, v]...]
+DOCUMENTED_ERRORS = ('TypeError', 'ValueError', 'KeyError', 'AssertionError', 'AttributeError')
+
+
+def check_jshape(v):
+    if v is None or isinstance(v, (bool, int, str)):
+        return
+    assert isinstance(v, list) and v and v[0] in ('f', 'a', 'o')
+    if v[0] == 'f':
+        assert len(v) == 2 and isinstance(v[1], str)
+        float(v[1])
+    elif v[0] == 'a':
+        for x in v[1:]:
+            check_jshape(x)
+    else:
+        for p in v[1:]:
+            assert isinstance(p, list) and len(p) == 2 and isinstance(p[0], str)
+            check_jshape(p[1])
+
+
+def jterm(v):
+    if v is None:
+        return 'JNull'
+    if isinstance(v, bool):
+        return '(JBool %s)' % ('true' if v else 'false')
+    if isinstance(v, int):
+        return '(JInt %s)' % coq_z(v)
+    if isinstance(v, str):
+        return '(JStr %s)' % coq_bs(v)
+    if v[0] == 'f':
+        return '(JFloat %s)' % coq_bs(v[1])
+    if v[0] == 'a':
+        return '(JArr [%s])' % '; '.join(jterm(x) for x in v[1:])
+    return '(JObj [%s])' % '; '.join('(%s, %s)' % (coq_bs(k), jterm(x)) for k, x in v[1:])
+
+
+def to_py(v):
+    if v is None or isinstance(v, (bool, int, str)):
+        return v
+    if v[0] == 'f':
+        return float(v[1])
+    if v[0] == 'a':
+        return [to_py(x) for x in v[1:]]
+    return {k: to_py(x) for k, x in v[1:]}
+
+
+def from_py(o):
+    if o is None or isinstance(o, (bool, int, str)):
+        return o
+    if isinstance(o, float):
+        return ['f', repr(o)]
+    if isinstance(o, list):
+        return ['a'] + [from_py(x) for x in o]
+    return ['o'] + [[k, from_py(x)] for k, x in o.items()]
+
+
+def impl_json(case):
+    import io
+    check_jshape(case['j'])
+    py = to_py(case['j'])
+    if case.get('read'):
+        from sugar import read
+        from sugar._io.sjson import COMMENT
+        assert isinstance(py, dict) and '_fmtcomment' not in py
+        text = json.dumps(dict(_fmtcomment=COMMENT, **py))
+        fd, fn = tempfile.mkstemp(prefix='C14-', suffix='.sjson', dir='/tmp')
+        os.close(fd)
+        try:
+            with open(fn, 'w') as f:
+                f.write(text)
+            return snap(read(fn))
+        finally:
+            os.remove(fn)
+    from sugar._io.sjson import read_sjson
+    return snap(read_sjson(io.StringIO(json.dumps(py))))
+
+
+def _tagged(py, out=None, path=()):
+    """all (path, dict) of the JSON objects carrying _cls"""
+    out = [] if out is None else out
+    if isinstance(py, dict):
+        if '_cls' in py:
+            out.append(py)
+        for v in py.values():
+            _tagged(v, out)
+    elif isinstance(py, list):
+        for v in py:
+            _tagged(v, out)
+    return out
+
+
+def _reorder(d, key, val):
+    """insert before _cls (the encoder writes _cls last; the position does not matter to the reader, vary it)"""
+    items = [(k, v) for k, v in d.items() if k != key]
+    d.clear()
+    d.update(items[:-1] + [(key, val)] + items[-1:] if items and items[-1][0] == '_cls' else items + [(key, val)])
+
+
+def g_json_mutation(rng, py):
+    objs = _tagged(py)
+    by = {}
+    for o in objs:
+        if isinstance(o.get('_cls'), str):
+            by.setdefault(o['_cls'], []).append(o)
+    pick = lambda c: rng.choice(by[c]) if by.get(c) else None
+    m = rng.choice(['none', 'drop', 'drop', 'loclists', 'startstop', 'shuffle', 'seqid', 'seqid', 'notype', 'lower', 'nestseq', 'untag', 'clsval',
+                    'unknownkw', 'badloc', 'badloc', 'emptylocs', 'mixed', 'nestfl', 'nestbasket', 'metaword', 'nulls', 'ftype', 'both', 'strkw', 'weirddata'])
+    if m == 'drop':
+        o = rng.choice(objs)
+        ks = [k for k in o if k != '_cls']
+        if ks:
+            del o[rng.choice(ks)]
+    elif m == 'loclists':
+        f = pick('Feature')
+        if f and isinstance(f.get('locs'), list):
+            new = []
+            for l in f['locs']:
+                if isinstance(l, dict) and rng.random() < 0.8:
+                    t = [l.get('start'), l.get('stop'), l.get('strand', '+'), l.get('defect', 0), l.get('meta')]
+                    new.append(t[:rng.choice([2, 3, 4, 5, 5, 6])] + ([7] if rng.random() < 0.05 else []))
+                else:
+                    new.append(l)
+            f['locs'] = new
+    elif m in ('startstop', 'both'):
+        f = pick('Feature')
+        if f and isinstance(f.get('locs'), list) and f['locs'] and isinstance(f['locs'][0], dict):
+            l = f['locs'][0]
+            if m == 'startstop':
+                del f['locs']
+            _reorder(f, 'start', l.get('start'))
+            if rng.random() < 0.9:
+                _reorder(f, 'stop', l.get('stop'))
+            if rng.random() < 0.6:
+                _reorder(f, 'strand', l.get('strand'))
+    elif m == 'shuffle':
+        f = pick('Feature')
+        if f and isinstance(f.get('locs'), list):
+            rng.shuffle(f['locs'])
+    elif m == 'seqid':
+        s = pick('BioSeq')
+        if s:
+            _reorder(s, 'id', g_py_scalar(rng))
+            if rng.random() < 0.4 and isinstance(s.get('meta'), dict):
+                s['meta'].pop('id', None)
+    elif m == 'notype':
+        s = pick('BioSeq')
+        if s:
+            if rng.random() < 0.5:
+                s.pop('type', None)
+            else:
+                s['type'] = rng.choice([None, 'nt', 'aa', 'dna', 0, ''])
+            if rng.random() < 0.5:
+                s['data'] = ''.join(rng.choice('ACGTUN-acgtuxz*') for _ in range(rng.randint(0, 8)))
+    elif m == 'lower':
+        s = pick('BioSeq')
+        if s and isinstance(s.get('data'), str):
+            s['data'] = s['data'].lower() + rng.choice(['', 'acgu', 'xyz'])
+    elif m == 'nestseq':
+        s = pick('BioSeq')
+        if s:
+            inner = dict(s)
+            s['data'] = inner
+            if rng.random() < 0.5:
+                s['meta'] = {'outer': 1, '_cls': 'Meta'}
+    elif m == 'untag':
+        o = rng.choice([x for x in objs if x.get('_cls') in ('Attr', 'Meta')] or objs)
+        del o['_cls']
+    elif m == 'clsval':
+        o = rng.choice(objs)
+        o['_cls'] = rng.choice(['foo', 'location', 0, None, '', True, False, [1], [], 7, 'Bar', {}, {'a': 1}])
+    elif m == 'unknownkw':
+        _reorder(rng.choice(objs), rng.choice(['foo', 'x', 'name', 'seqid']), rng.choice([1, None, 'v']))
+    elif m == 'badloc':
+        l = pick('Location')
+        if l:
+            c = rng.randrange(6)
+            if c == 0:
+                l['stop'] = l.get('start')
+            elif c == 1:
+                l['start'], l['stop'] = l.get('stop'), l.get('start')
+            elif c == 2:
+                l['strand'] = rng.choice(['x', '', '+-', None])
+            elif c == 3:
+                l['defect'] = None
+            elif c == 4:
+                l.pop(rng.choice(['start', 'stop']), None)
+            else:
+                l['meta'] = rng.choice([None, {'plain': {'deep': 1}}, {}])
+    elif m == 'emptylocs':
+        f = pick('Feature')
+        if f:
+            f['locs'] = rng.choice([[], None])
+    elif m == 'mixed':
+        f = pick('Feature')
+        if f and isinstance(f.get('locs'), list) and f['locs'] and isinstance(f['locs'][-1], dict):
+            f['locs'].append(dict(f['locs'][-1], strand=rng.choice(STRANDS)))
+    elif m == 'nestfl':
+        o = pick('FeatureList') or pick('BioBasket')
+        if o:
+            o['data'] = {'data': o.get('data'), '_cls': rng.choice(['FeatureList', 'BioBasket'])}
+    elif m == 'nestbasket':
+        if isinstance(py, dict) and py.get('_cls') == 'BioBasket':
+            inner = dict(py)
+            py.clear()
+            py.update({'data': inner, 'meta': {'outer': True, '_cls': 'Meta'}, '_cls': 'BioBasket'})
+    elif m == 'metaword':
+        b = pick('BioBasket')
+        if b and isinstance(b.get('data'), list):
+            b['data'].insert(rng.randint(0, len(b['data'])), rng.choice(['meta', 'meta', 'x', 1, None]))
+    elif m == 'nulls':
+        o = rng.choice(objs)
+        ks = [k for k in o if k != '_cls']
+        if ks:
+            o[rng.choice(ks)] = None
+    elif m == 'ftype':
+        f = pick('Feature')
+        if f:
+            _reorder(f, 'type', g_py_scalar(rng))
+    elif m == 'weirddata':                    # outside the modelled domain (drift only): non-string data without .meta
+        s = pick('BioSeq') or pick('BioBasket')
+        if s:
+            s['data'] = rng.choice([['meta'], {'meta': {'id': 'q'}}, ['x'], 5])
+    elif m == 'strkw':
+        _reorder(rng.choice(objs), 'str', rng.choice(['x', None, 1]))
+    return py
+
+
+def g_py_scalar(rng):
+    return rng.choice([0, None, False, 0.0, '', 1, True, 'x', 'id7', 2.5, -3])
+
+
+def g_json_case(rng):
+    g = g_basket(rng, {}, rng.choice([1, 2, 2, 3]))
+    try:
+        text = write_text(build(g), 'str')
+    except Exception:
+        g = ['BioBasket', [], ['Meta']]
+        text = write_text(build(g), 'str')
+    py = json.loads(text)
+    py.pop('_fmtcomment', None)
+    for _ in range(rng.choice([1, 1, 1, 2, 3])):
+        py = g_json_mutation(rng, py)
+    top_basket = isinstance(py, dict) and py.get('_cls') == 'BioBasket' and '_fmtcomment' not in py
+    if rng.random() < 0.25:                      # a sub-object as the whole document (read_sjson accepts any JSON value)
+        objs = _tagged(py)
+        if objs:
+            py = rng.choice(objs)
+            top_basket = False
+    return {'kind': 'json', 'read': bool(top_basket and rng.random() < 0.5), 'j': from_py(py)}
 
 
 # ----------------------------------------------------------------------------- relational checks without the model
@@ -587,7 +1379,7 @@ def extra_checks(rng, tier, cov):
         s1 = snap(roundtrip(seqs))
         n += 1
         cov['example_features'] = k
-        if canon(s0) != canon(s1):
+        if _diff(canon(s0), canon(s1)) is not None:
             yield {'case': {'kind': 'example', 'b': s0}, 'impl': s1, 'spec': 'bundled example with modified locations: ' + str(_diff(canon(s0), canon(s1)))[:300],
                    'noshrink': True}
     except Exception as e:                                            # pragma: no cover
@@ -604,4 +1396,46 @@ def extra_checks(rng, tier, cov):
         if s1 != s2:
             yield {'case': {'kind': 'fixpoint', 'b': g}, 'impl': s2, 'spec': 'second round trip is not the identity: ' + str(_diff(s1, s2))[:300],
                    'noshrink': True}
+    # (3) text beyond Latin-1 (outside the Coq model's str) through every transport: BMP, astral, line separators, lone surrogate
+    from sugar import BioSeq, BioBasket, Feature
+    from sugar.core.fts import Location
+    UNI = ['\u03b2-lactamase', 'Gr\xf6\xdfe \u2192 \u6771\u4eac', 'caf\xe9', '\U0001f9ec dna', 'line\u2028sep\u2029', '\ud800 lone', '\x7f\x80\xff\u0100', '\u0141ukasz']
+    nu = 0
+    for via in VIAS:
+        for k in range(len(UNI)):
+            u, v = UNI[k], UNI[(k + 1) % len(UNI)]
+            try:
+                ft = Feature('CDS', locs=[Location(0, 6, '-', 3, meta={'who': u})], meta={'product': u, 'note': [v, {u: v}]})
+                seq = BioSeq('ATGAAATAA', id=u, meta={'organism': v, 'nested': {v: [u, None]}})
+                seq.meta.fts = __import__('sugar').core.fts.FeatureList([ft])
+                b = BioBasket([seq], meta={'title': u + v})
+                s0 = snap(b)
+                s1 = snap(roundtrip(b, via))
+                nu += 1
+                d = _diff(canon(s0), canon(s1))
+            except Exception as e:
+                d, s1 = 'raised %s: %s' % (type(e).__name__, str(e)[:120]), {'e': type(e).__name__}
+            if d:
+                yield {'case': {'kind': 'unicode', 'via': via, 'strings': [ascii(u), ascii(v)]}, 'impl': s1, 'noshrink': True,
+                       'spec': 'non-ASCII metadata %s/%s through transport %r: %s' % (ascii(u), ascii(v), via, str(d)[:300])}
+    cov['unicode_transport_checks'] = nu
+    # (4) error path, PENDING FIX failed_write_state: a write that fails (metadata that is not JSON-representable) leaves
+    #     `_fmtcomment` in the basket's __dict__, so every later SJSON write of the repaired basket raises TypeError.
+    #     Recorded in the evidence, not a violation (outside the property's quantifier: the first write is not of a representable basket).
+    try:
+        b = BioBasket([BioSeq('ACGT', id='x')], meta={'bad': {1, 2}})
+        s0 = snap(b)
+        try:
+            b.tofmtstr('sjson')
+            st = 'first write did not fail'
+        except TypeError:
+            del b.meta['bad']
+            try:
+                ok = _diff(canon(snap(roundtrip(b, 'str'))), canon(snap(b))) is None
+                st = 'fixed' if ok else 'second write differs'
+            except TypeError:
+                st = 'reproduced'
+        cov['pending_failed_write_state'] = st
+    except Exception as e:                                            # pragma: no cover
+        cov['pending_failed_write_state'] = 'error %s' % type(e).__name__
     cov['relational_checks'] = n
